@@ -244,12 +244,23 @@ class Lin:
         return ' + '.join(parts).replace('+ -', '- ')
 
 
-def linear(n, env=None, sym=None):
+def linear(n, env=None, sym=None, inline=None, _depth=0):
     """Linear form of an integer/pointer expression. env: decl id -> Lin substitution (e.g. from
-    reaching definitions). sym(node) names a leaf; default: its text."""
+    reaching definitions). sym(node) names a leaf; default: its text.
+    inline(callee_qp) -> [Fn]: a call to a function whose body is one return statement is replaced by that expression with the
+    parameters standing for the (linear forms of the) arguments (`next_due(now, ms)` -> `now.get_ticks() + ms * million`)."""
     env = env or {}
     sym = sym or (lambda x: x.text())
     s = n.strip(casts=True)
+    if inline is not None and _depth < 3 and s.is_call and s.callee_qp and s.k != 'CXXMemberCallExpr':
+        for h in inline(s.callee_qp):
+            rr = [x for x in h.all_nodes() if x.k == 'ReturnStmt' and x.children]
+            if len(rr) == 1 and len(h.param_ids) == len(s.args) and not [x for x in h.all_nodes() if x.k in ('IfStmt', 'ForStmt', 'WhileStmt', 'DoStmt', 'SwitchStmt')]:
+                env2 = {pid: linear(a, env, sym, inline, _depth + 1) for pid, a in zip(h.param_ids, s.args) if a.strip(casts=True).k != 'CXXThisExpr'}
+                # a parameter that is an object (its methods are called) keeps its name: the leaf namer sees `param.method()` as written
+                env2 = {pid: lf for pid, lf in env2.items() if not any(x.k == 'MemberExpr' and x.children and x.children[0].strip(casts=True).k == 'DeclRefExpr' and
+                                                                      x.children[0].strip(casts=True).declid == pid for x in rr[0].walk())}
+                return linear(rr[0].children[0], env2, sym, inline, _depth + 1)
     v = s.value
     if v is not None and s.k not in ('DeclRefExpr',):
         return Lin(v)
@@ -262,19 +273,19 @@ def linear(n, env=None, sym=None):
     if s.k == 'BinaryOperator':
         a, b = s.children
         if s.op == '+':
-            return linear(a, env, sym) + linear(b, env, sym)
+            return linear(a, env, sym, inline, _depth) + linear(b, env, sym, inline, _depth)
         if s.op == '-':
-            return linear(a, env, sym) - linear(b, env, sym)
+            return linear(a, env, sym, inline, _depth) - linear(b, env, sym, inline, _depth)
         if s.op == '*':
-            la, lb = linear(a, env, sym), linear(b, env, sym)
+            la, lb = linear(a, env, sym, inline, _depth), linear(b, env, sym, inline, _depth)
             if la.is_const():
                 return lb.scale(la.c)
             if lb.is_const():
                 return la.scale(lb.c)
     if s.k == 'UnaryOperator' and s.op == '-':
-        return -linear(s.children[0], env, sym)
+        return -linear(s.children[0], env, sym, inline, _depth)
     if s.k == 'UnaryOperator' and s.op == '+':
-        return linear(s.children[0], env, sym)
+        return linear(s.children[0], env, sym, inline, _depth)
     return Lin(0, {sym(s): 1})
 
 
